@@ -219,6 +219,7 @@ func (fr *frame) visitInstr(instr ssa.Instruction) continuation {
 		if addr == nil {
 			fr.rtPanic("invalid memory address or nil pointer dereference")
 		}
+		fr.raceWrite(instr.Addr, addr)
 		store(deref(instr.Addr.Type()), addr, fr.get(instr.Val))
 		if len(fr.p.sched.gs) > 1 {
 			if a, ok := instr.Addr.(*ssa.Alloc); !ok || a.Heap {
